@@ -19,6 +19,28 @@ pub struct C09;
 pub enum Case {
     Seq(SeqCase),
     Script(ScriptCase),
+    Text(TextCase),
+}
+
+/// TextDiff::ops (five tokenizers, str and [u8]) is a captured op list too
+fn check_text(c: &TextCase, obs: &mut Obs) -> Verdict {
+    fn nf<T: similar::DiffableStr + ?Sized>(d: &similar::TextDiff<T>) -> Result<usize, String> {
+        let (o, n) = (d.old_slices(), d.new_slices());
+        normal_form(d.ops(), &|i, j| o.get(i).is_some() && o.get(i) == n.get(j)).map_err(|m| format!("TextDiff::ops {:?}: {}", d.ops(), m))?;
+        Ok(d.ops().len())
+    }
+    let cfg = config(c.alg);
+    let r = if c.use_bytes() { guard(|| nf(&diff_bytes(&cfg, c.tok, &c.old.0, &c.new.0))) } else { guard(|| nf(&diff_str(&cfg, c.tok, c.old.as_str().unwrap(), c.new.as_str().unwrap()))) };
+    obs.class("TextDiff::ops");
+    obs.class(TOKENIZERS[(c.tok % 5) as usize]);
+    match r {
+        Ok(Ok(n)) => {
+            obs.nontrivial = n >= 3;
+            Verdict::Pass
+        }
+        Ok(Err(m)) => Verdict::Fail(format!("{} {} {}: {}", alg_name(c.alg), TOKENIZERS[(c.tok % 5) as usize], if c.use_bytes() { "[u8]" } else { "str" }, m)),
+        Err(p) => Verdict::Fail(format!("text diff: {}", p)),
+    }
 }
 
 fn check_script(c: &ScriptCase, obs: &mut Obs) -> Verdict {
@@ -90,6 +112,8 @@ fn strat(tier: Tier) -> BoxedStrategy<Case> {
             c.stack = 2;
             Case::Script(c)
         }),
+        60 => text_case_mix(tier.pick(120, 160)).prop_map(Case::Text),
+        10 => big_line_case(tier.pick(130, 300)).prop_map(Case::Text),
     ]
     .boxed()
 }
@@ -119,7 +143,7 @@ impl Prop for C09 {
     type Case = Case;
     const ID: &'static str = "C09";
     fn rule() -> String {
-        "cases = (algorithm, old, new, ranges, capture entry point, deadline none | virtual clock expiring at probe k); enumeration of all pairs over {0,1} (repeats next to every edit) x {none, k=0, k=1} plus proptest mixture, plus (1 case in ~200 each) sequences of 1200-2500/5000 items with 300-900 scattered edits (thousands of raw ops) and single edits next to periodic runs of 2200-5200/9000 items (an insertion slides thousands of positions). Oracle: Equal/non-Equal strictly alternate, no empty op or empty Replace side, every Insert followed by an Equal has new[ins.new_index] != old[eq.old_index]. Non-trivial = at least 3 ops; distinct = distinct serialized case. 1 random case in 5 and a second enumeration stage are ARBITRARY VALID SCRIPTS (C10's generator: run splitting, insert-before-delete, non-minimal scripts; all scripts of all pairs over {0,1} up to length 3) pushed through Compact<Replace<Capture>> and judged by the same normal-form oracle.".into()
+        "cases = (algorithm, old, new, ranges, capture entry point, deadline none | virtual clock expiring at probe k); enumeration of all pairs over {0,1} (repeats next to every edit) x {none, k=0, k=1} plus proptest mixture, plus (1 case in ~200 each) sequences of 1200-2500/5000 items with 300-900 scattered edits (thousands of raw ops) and single edits next to periodic runs of 2200-5200/9000 items (an insertion slides thousands of positions). Oracle: Equal/non-Equal strictly alternate, no empty op or empty Replace side, every Insert followed by an Equal has new[ins.new_index] != old[eq.old_index]. Non-trivial = at least 3 ops; distinct = distinct serialized case. about 1 random case in 10 is a TEXT diff (TextDiff::ops over the five tokenizers, str and [u8], below and above 100 tokens); 1 random case in 6 and a second enumeration stage are ARBITRARY VALID SCRIPTS (C10's generator: run splitting, insert-before-delete, non-minimal scripts; all scripts of all pairs over {0,1} up to length 3) pushed through Compact<Replace<Capture>> and judged by the same normal-form oracle.".into()
     }
     fn assumptions() -> Vec<String> {
         vec!["expiry placed by the virtual clock hook".into()]
@@ -149,6 +173,7 @@ impl Prop for C09 {
         match case {
             Case::Seq(c) => check_case(c, obs),
             Case::Script(c) => check_script(c, obs),
+            Case::Text(c) => check_text(c, obs),
         }
     }
 }
